@@ -878,18 +878,23 @@ Qed.
 
 (* ---------- the translator, component-wise ---------- *)
 Fixpoint size (e : ex) : nat :=
-  match e with EInt _ => 0 | ECount k => 3 + gsize (k_guard k) + agg_nifs (k_agg k) | EBin _ a b => size a + size b | EIdx _ _ _ => 1 end.
+  match e with
+  | EInt _ | EDbl _ _ _ => 0 | ECount k => 3 + gsize (k_guard k) + agg_nifs (k_agg k)
+  | EBin _ a b | EDiv a b => size a + size b | EIdx _ _ _ => 1 | ENeg a | EFun _ a => size a
+  end.
 Definition idx_cv (c : collref) (n : nat) : string := nm (c_base c) n.
 Fixpoint tds (e : ex) (n : nat) : list decl :=
   match e with
   | EInt _ => [] | ECount k => tcount_decls k n | EBin _ a b => tds a n ++ tds b (n + size a)
   | EIdx c _ _ => [{| d_type := c_ctype c; d_name := idx_cv c n; d_init := None |}]
+  | EDbl _ _ _ => [] | EDiv a b => tds a n ++ tds b (n + size a) | ENeg a | EFun _ a => tds a n
   end.
 Fixpoint tss (idiom : string) (e : ex) (n : nat) : stmts :=
   match e with
   | EInt _ => SNil | ECount k => tcount_stmts idiom k n
   | EBin _ a b => app_stmts (tss idiom a n) (tss idiom b (n + size a))
   | EIdx c _ _ => one_stmt (SFetch idiom (idx_cv c n) (c_ctype c) (c_bank c) (fetch_lines idiom (c_ctype c) (c_bank c)))
+  | EDbl _ _ _ => SNil | EDiv a b => app_stmts (tss idiom a n) (tss idiom b (n + size a)) | ENeg a | EFun _ a => tss idiom a n
   end.
 Definition idx_exp (c : collref) (i : nat) (m : string) (n : nat) : cexp :=
   CMeth (CMeth (CVar (idx_cv c n)) true "at" (CCons (CInt (Z.of_nat i)) CNil)) (c_arrow c) m CNil.
@@ -898,14 +903,22 @@ Fixpoint tc (e : ex) (n : nat) : cexp :=
   | EInt z => CInt z | ECount k => CVar (kagg k n)
   | EBin o a b => CBin (op_str o) (tc a n) (tc b (n + size a))
   | EIdx c i m => idx_exp c i m n
+  | EDbl t z d => CDbl t z d
+  | EDiv a b => CBin "/" (if ex_div_needs_cast a b then CCast "double" (tc a n) else tc a n) (tc b (n + size a))
+  | ENeg a => CUn "-" (tc a n)
+  | EFun f a => CCall f (CCons (tc a n) CNil)
   end.
 Lemma te_split (idiom : string) (e : ex) : forall n, te idiom e n = (tds e n, tss idiom e n, tc e n, n + size e).
 Proof.
-  induction e as [z|k|o a IHa b IHb|c i m]; intro n; cbn [te tds tss tc size].
+  induction e as [z|k|o a IHa b IHb|c i m|t z0 d0|a IHa b IHb|a IHa|fn a IHa]; intro n; cbn [te tds tss tc size].
   - rewrite Nat.add_0_r. reflexivity.
   - replace (n + (3 + gsize (k_guard k) + agg_nifs (k_agg k))) with (S (S (S n)) + gsize (k_guard k) + agg_nifs (k_agg k)) by lia. reflexivity.
   - rewrite IHa, IHb. rewrite Nat.add_assoc. reflexivity.
   - rewrite Nat.add_1_r. reflexivity.
+  - rewrite Nat.add_0_r. reflexivity.
+  - rewrite IHa, IHb. rewrite Nat.add_assoc. reflexivity.
+  - rewrite IHa. reflexivity.
+  - rewrite IHa. reflexivity.
 Qed.
 
 Fixpoint vars (e : ex) (n : nat) : list string :=
@@ -913,17 +926,19 @@ Fixpoint vars (e : ex) (n : nat) : list string :=
   | EInt _ => [] | ECount k => [cv_name k n; kagg k n]
   | EBin _ a b => vars a n ++ vars b (n + size a)
   | EIdx c _ _ => [idx_cv c n]
+  | EDbl _ _ _ => [] | EDiv a b => vars a n ++ vars b (n + size a) | ENeg a | EFun _ a => vars a n
   end.
 Fixpoint bases_ok (e : ex) : bool :=
   match e with
   | EInt _ => true | ECount k => base_ok (c_base (k_coll k)) | EBin _ a b => bases_ok a && bases_ok b
   | EIdx c _ _ => base_ok (c_base c)
+  | EDbl _ _ _ => true | EDiv a b => bases_ok a && bases_ok b | ENeg a | EFun _ a => bases_ok a
   end.
 
 Lemma vars_shape (e : ex) : forall n x, bases_ok e = true -> In x (vars e n) ->
   exists b i, x = nm b i /\ last_digit b = false /\ first_not_underscore b = true /\ n <= i < n + size e.
 Proof.
-  induction e as [z|k|o a IHa b IHb|c i0 m]; intros n x Hb Hin; cbn [vars size bases_ok] in *.
+  induction e as [z|k|o a IHa b IHb|c i0 m|t z0 d0|a IHa b IHb|a IHa|fn a IHa]; intros n x Hb Hin; cbn [vars size bases_ok] in *.
   - destruct Hin.
   - unfold base_ok in Hb. apply andb_prop in Hb as [H1 H2]. apply negb_true_iff in H1.
     destruct Hin as [<-|[<-|[]]].
@@ -934,6 +949,12 @@ Proof.
     + destruct (IHb _ x Hb' Hin) as (bb & i & E & L & F & R). exists bb, i. repeat split; auto; lia.
   - unfold base_ok in Hb. apply andb_prop in Hb as [H1 H2]. apply negb_true_iff in H1.
     destruct Hin as [<-|[]]. exists (c_base c), n. repeat split; auto; lia.
+  - destruct Hin.
+  - apply andb_prop in Hb as [Ha Hb']. apply in_app_or in Hin as [Hin|Hin].
+    + destruct (IHa n x Ha Hin) as (bb & i & E & L & F & R). exists bb, i. repeat split; auto; lia.
+    + destruct (IHb _ x Hb' Hin) as (bb & i & E & L & F & R). exists bb, i. repeat split; auto; lia.
+  - exact (IHa n x Hb Hin).
+  - exact (IHa n x Hb Hin).
 Qed.
 
 Lemma vars_disjoint (a b : ex) (n : nat) (x : string) :
@@ -978,13 +999,19 @@ Qed.
 (* the first phase succeeds whenever the ordinary evaluation has a value *)
 Lemma dstm_of_de (ev : event) (e : ex) : forall v, de ev e = ROk v -> dstm ev e = ROk tt.
 Proof.
-  induction e as [z|k|o a IHa b IHb|c i m]; intros v H; cbn [de dstm] in *.
+  induction e as [z|k|o a IHa b IHb|c i m|t z0 d0|a IHa b IHb|a IHa|fn a IHa]; intros v H; cbn [de dstm] in *.
   - reflexivity.
   - rewrite H. reflexivity.
   - destruct (de ev a) as [x|f|kk]; cbn [rbind] in H; try discriminate.
     destruct (de ev b) as [y|f|kk]; cbn [rbind] in H; try discriminate.
     rewrite (IHa x eq_refl). cbn [rbind]. exact (IHb y eq_refl).
   - unfold didx in H. destruct (assoc_ss (c_ctype c, c_bank c) (ev_colls ev)) as [w|]; [reflexivity|discriminate].
+  - reflexivity.
+  - destruct (de ev a) as [x|f|kk]; cbn [rbind] in H; try discriminate.
+    destruct (de ev b) as [y|f|kk]; cbn [rbind] in H; try discriminate.
+    rewrite (IHa x eq_refl). cbn [rbind]. exact (IHb y eq_refl).
+  - destruct (de ev a) as [x|f|kk]; cbn [rbind] in H; try discriminate. exact (IHa x eq_refl).
+  - destruct (de ev a) as [x|f|kk]; cbn [rbind] in H; try discriminate. exact (IHa x eq_refl).
 Qed.
 
 (* the two-phase reference and the ordinary evaluation have the same values: they can differ only in WHICH fault an
@@ -1004,12 +1031,13 @@ Fixpoint declared (e : ex) (n : nat) (st : state) : Prop :=
                 fget (kagg k n) st = Some (agg_type k, conv (agg_type k) (agg_seed (k_agg k)))
   | EBin _ a b => declared a n st /\ declared b (n + size a) st
   | EIdx c _ _ => exists t v, fget (idx_cv c n) st = Some (t, v)
+  | EDbl _ _ _ => True | EDiv a b => declared a n st /\ declared b (n + size a) st | ENeg a | EFun _ a => declared a n st
   end.
 
 Lemma declared_ext (e : ex) : forall n st st',
   (forall x, In x (vars e n) -> fget x st' = fget x st) -> declared e n st -> declared e n st'.
 Proof.
-  induction e as [z|k|o a IHa b IHb|c i m]; intros n st st' H D; cbn [declared vars] in *.
+  induction e as [z|k|o a IHa b IHb|c i m|t z0 d0|a IHa b IHb|a IHa|fn a IHa]; intros n st st' H D; cbn [declared vars] in *.
   - exact I.
   - destruct D as [(t & v & D1) D2]. split.
     + exists t, v. rewrite H; [exact D1|left; reflexivity].
@@ -1018,6 +1046,12 @@ Proof.
     + eapply IHa; [|exact Da]. intros x Hx. apply H, in_or_app. left; exact Hx.
     + eapply IHb; [|exact Db]. intros x Hx. apply H, in_or_app. right; exact Hx.
   - destruct D as (t & v & D). exists t, v. rewrite H; [exact D|left; reflexivity].
+  - exact I.
+  - destruct D as [Da Db]. split.
+    + eapply IHa; [|exact Da]. intros x Hx. apply H, in_or_app. left; exact Hx.
+    + eapply IHb; [|exact Db]. intros x Hx. apply H, in_or_app. right; exact Hx.
+  - eapply IHa; eauto.
+  - eapply IHa; eauto.
 Qed.
 
 (* the value expression only reads the accumulators of the expression *)
@@ -1027,7 +1061,7 @@ Definition bound (e : ex) (n : nat) (st : state) : Prop :=
 Lemma tc_ext (ev : event) (e : ex) : forall n s1 s2,
   bound e n s1 -> (forall x, In x (vars e n) -> fget x s2 = fget x s1) -> eval ev s2 (tc e n) = eval ev s1 (tc e n).
 Proof.
-  induction e as [z|k|o a IHa b IHb|c i m]; intros n s1 s2 D H; cbn [tc vars] in *.
+  induction e as [z|k|o a IHa b IHb|c i m|t z0 d0|a IHa b IHb|a IHa|fn a IHa]; intros n s1 s2 D H; cbn [tc vars] in *.
   - reflexivity.
   - destruct (D (kagg k n)) as [tv E1]; [right; left; reflexivity|].
     assert (E2 : fget (kagg k n) s2 = Some tv) by (rewrite H; [exact E1|right; left; reflexivity]).
@@ -1046,6 +1080,14 @@ Proof.
     change (eval ev s1 (CMeth (CMeth (CVar (idx_cv c n)) true "at" (CCons (CInt (Z.of_nat i)) CNil)) (c_arrow c) m CNil))
       with (rbind (rbind (eval ev s1 (CVar (idx_cv c n))) (fun x => call_method ev x "at" [VInt (Z.of_nat i)])) (fun y => call_method ev y m [])).
     rewrite !eval_var, (lookup_fget _ _ _ E1), (lookup_fget _ _ _ E2). reflexivity.
+  - reflexivity.
+  - assert (Ea : eval ev s2 (tc a n) = eval ev s1 (tc a n)).
+    { apply IHa; [intros x Hx; apply D; cbn [vars]; apply in_or_app; auto|intros x Hx; apply H, in_or_app; auto]. }
+    assert (Eb : eval ev s2 (tc b (n + size a)) = eval ev s1 (tc b (n + size a))).
+    { apply IHb; [intros x Hx; apply D; cbn [vars]; apply in_or_app; auto|intros x Hx; apply H, in_or_app; auto]. }
+    destruct (ex_div_needs_cast a b); cbn [eval]; rewrite Ea, Eb; reflexivity.
+  - cbn [eval]. rewrite (IHa n s1 s2 D H). reflexivity.
+  - cbn [eval eval_args]. rewrite (IHa n s1 s2 D H). reflexivity.
 Qed.
 
 Lemma te_exec (brs : list branch) (ev : event) (idiom : string) (e : ex) : forall (n : nat) (st : state),
@@ -1060,7 +1102,7 @@ Lemma te_exec (brs : list branch) (ev : event) (idiom : string) (e : ex) : foral
   | RStuck _ => True
   end.
 Proof.
-  induction e as [z|k|o a IHa b IHb|c i m]; intros n st Hb D; cbn [dstm tss tc vars de declared bases_ok] in *.
+  induction e as [z|k|o a IHa b IHb|c i m|t z0 d0|a IHa b IHb|a IHa|fn a IHa]; intros n st Hb D; cbn [dstm tss tc vars de declared bases_ok] in *.
   - exists st. repeat split; auto. intros x [].
   - destruct D as [(tcv & v0 & Dcv) Dagg].
     unfold base_ok in Hb. apply andb_prop in Hb as [Hl _]. apply negb_true_iff in Hl.
@@ -1126,6 +1168,38 @@ Proof.
       cbn [rbind call_method]. change (String.eqb "at" "at") with true. cbv iota.
       assert (Z0 : (Z.of_nat i <? 0)%Z = false) by (apply Z.ltb_ge, Nat2Z.is_nonneg). rewrite Z0, Nat2Z.id.
       destruct (nth_error l i) as [y|]; reflexivity.
+  - exists st. repeat split; auto. intros x [].
+  - apply andb_prop in Hb as [Hba Hbb]. destruct D as [Da Db].
+    specialize (IHa n st Hba Da). rewrite exec_stmts_app.
+    destruct (dstm ev a) as [[]|f|kk]; cbn [rbind]; [|rewrite IHa; reflexivity|exact I].
+    destruct IHa as (st1 & E1 & M1 & R1 & U1 & B1 & V1). rewrite E1. cbn [rbind].
+    assert (Db1 : declared b (n + size a) st1).
+    { eapply declared_ext; [|exact Db]. intros x Hx. apply U1. intro Hxa. exact (vars_disjoint a b n x Hba Hbb Hxa Hx). }
+    specialize (IHb (n + size a) st1 Hbb Db1).
+    destruct (dstm ev b) as [[]|f|kk]; [|exact IHb|exact I].
+    destruct IHb as (st2 & E2 & M2 & R2 & U2 & B2 & V2).
+    exists st2. split; [exact E2|]. split; [congruence|]. split; [congruence|]. split; [|split].
+    + intros y Hy. rewrite U2, U1; [reflexivity| |]; intro H; apply Hy, in_or_app; auto.
+    + intros x Hx. apply in_app_or in Hx as [Hx|Hx].
+      * rewrite U2; [apply B1, Hx|]. intro Hxb. exact (vars_disjoint a b n x Hba Hbb Hx Hxb).
+      * apply B2, Hx.
+    + intro Hn.
+      assert (Ea : eval ev st2 (tc a n) = de ev a).
+      { rewrite (tc_ext ev a n st1 st2 B1); [apply V1, (nstuck_bind_l _ _ Hn)|].
+        intros x Hx. apply U2. intro Hxb. exact (vars_disjoint a b n x Hba Hbb Hx Hxb). }
+      destruct (de ev a) as [x|f|kk] eqn:Eda; cbn [rbind] in Hn.
+      * assert (Eb : eval ev st2 (tc b (n + size a)) = de ev b) by (apply V2, (nstuck_bind_l _ _ Hn)).
+        destruct (ex_div_needs_cast a b); cbn [eval]; rewrite Ea, Eb; reflexivity.
+      * destruct (ex_div_needs_cast a b); cbn [eval]; rewrite Ea; reflexivity.
+      * destruct Hn.
+  - specialize (IHa n st Hb D). destruct (dstm ev a) as [[]|f|kk]; [|exact IHa|exact I].
+    destruct IHa as (st1 & E1 & M1 & R1 & U1 & B1 & V1).
+    exists st1. split; [exact E1|]. split; [exact M1|]. split; [exact R1|]. split; [exact U1|]. split; [exact B1|].
+    intro Hn. cbn [eval]. rewrite (V1 (nstuck_bind_l _ _ Hn)). reflexivity.
+  - specialize (IHa n st Hb D). destruct (dstm ev a) as [[]|f|kk]; [|exact IHa|exact I].
+    destruct IHa as (st1 & E1 & M1 & R1 & U1 & B1 & V1).
+    exists st1. split; [exact E1|]. split; [exact M1|]. split; [exact R1|]. split; [exact U1|]. split; [exact B1|].
+    intro Hn. cbn [eval eval_args]. rewrite (V1 (nstuck_bind_l _ _ Hn)). destruct (de ev a); reflexivity.
 Qed.
 
 (* pa_type is int or double *)
@@ -1186,7 +1260,19 @@ Lemma decls_declared (ev : event) (e : ex) : forall (n : nat) (st : state),
               members st' = members st /\ rows st' = rows st /\
               (forall y, ~ In y (vars e n) -> fget y st' = fget y st).
 Proof.
-  induction e as [z|k|o a IHa b IHb|c i m]; intros n st Hb Hf; cbn [tds vars declared bases_ok] in *.
+  induction e as [z|k|o a IHa b IHb|c i m|t z0 d0|a IHa b IHb|a IHa|fn a IHa]; intros n st Hb Hf; cbn [tds vars declared bases_ok] in *.
+  5: { exists st. cbn. repeat split; auto. }
+  5: { apply andb_prop in Hb as [Hba Hbb]. rewrite run_decls_app.
+       destruct (IHa n st Hba) as (st1 & E1 & D1 & M1 & R1 & U1); [intros x Hx; apply Hf, in_or_app; auto|].
+       rewrite E1. cbn [rbind].
+       destruct (IHb (n + size a) st1 Hbb) as (st2 & E2 & D2 & M2 & R2 & U2).
+       { intros x Hx. rewrite U1; [apply Hf, in_or_app; auto|]. intro Hxa. exact (vars_disjoint a b n x Hba Hbb Hxa Hx). }
+       exists st2. split; [exact E2|]. split; [split|].
+       + eapply declared_ext; [|exact D1]. intros x Hx. apply U2. intro Hxb. exact (vars_disjoint a b n x Hba Hbb Hx Hxb).
+       + exact D2.
+       + split; [congruence|]. split; [congruence|]. intros y Hy. rewrite U2, U1; [reflexivity| |]; intro H; apply Hy, in_or_app; auto. }
+  5: { exact (IHa n st Hb Hf). }
+  5: { exact (IHa n st Hb Hf). }
   4: { cbn [run_decls d_init d_name d_type].
        destruct (declare_spec (idx_cv c n) (c_ctype c) (default_value (c_ctype c)) st) as (G & O & M & R); [apply Hf; left; reflexivity|].
        eexists. split; [reflexivity|]. split; [eauto|]. split; [exact M|]. split; [exact R|].
